@@ -11,7 +11,7 @@ PROP = "C03"
 RULE = (
     "a case is a HISTORY of 2-4 requests (GET / HEAD / POST, unique targets) on one pool (maxsize 1-2, retries False / 1 / 3): "
     "per attempt the server behaviour = status 200 / 204 / 304 x framing Content-Length / chunked / close-delimited x "
-    "keep-alive / close x network segmentation x {nothing, stray bytes or a complete second response after the body, a body "
+    "keep-alive / close x network segmentation x part of the response arriving only after the next request was written x {nothing, stray bytes or a complete second response after the body, a body "
     "after a body-less HEAD/204/304 response, an interim 100 Continue, early EOF inside the body}; per response the caller "
     "behaviour = read all / read k then release / release unread / drain / close / read k then close / stream / ignore / "
     "read k then ignore / release (or read k and release) while keeping the response object referenced / hold (read to the end only just before the last request, so that several connections are in flight). Every body the server sends is TAGGED with the target and serial number of the request it answers, "
@@ -45,6 +45,16 @@ def server_outcome(sv):
         o["seg"] = sv["seg"]
     if sv.get("cs"):
         o["chunk_sizes"] = sv["cs"]
+    if sv.get("late") is not None and sv.get("extra") in (None, "pre100") and sv.get("status", 200) == 200:
+        # (unsolicited bytes that arrive only after the next request was written are indistinguishable from its
+        #  response for any HTTP/1.1 client; the statement speaks of bytes pending AT CHECKOUT, so only the
+        #  legitimate remainder of a body is ever delivered late)
+        o["late"] = sv["late"]
+        if sv.get("trap"):
+            # the late remainder of THIS body looks like an HTTP message (it is still this request's own data)
+            o["body"] = ("T" * sv["late"]) + "HTTP/1.1 200 OK\r\nContent-Length: 6\r\n\r\nPOISON"
+            o["late_marker"] = "HTTP/1.1 200 OK"
+            o.pop("chunk_sizes", None)  # one chunk, so that the marker is not interrupted by framing
     ex = sv.get("extra")
     if ex == "stray":
         o["then"] = "stray"
@@ -73,6 +83,10 @@ def _validate(case):
         if not isinstance(sv.get("keep", True), bool) or not (isinstance(sv.get("n", 40), int) and 0 <= sv.get("n", 40) <= 5000):
             raise core.InvalidCase
         if sv.get("seg") is not None and not (isinstance(sv["seg"], int) and 1 <= sv["seg"] <= 5000):
+            raise core.InvalidCase
+        if sv.get("late") is not None and not (isinstance(sv["late"], int) and 0 <= sv["late"] <= 5000):
+            raise core.InvalidCase
+        if not isinstance(sv.get("trap", False), bool):
             raise core.InvalidCase
         if "cs" in sv and not (isinstance(sv["cs"], list) and all(isinstance(x, int) and 1 <= x <= 200 for x in sv["cs"]) and len(sv["cs"]) <= 4):
             raise core.InvalidCase
@@ -257,7 +271,7 @@ def product_cases(tier):
                                     k += 1
                                     if tier == "quick" and k % 5:
                                         continue
-                                    sv = {"status": status, "framing": framing, "keep": keep, "extra": extra, "seg": seg, "n": 40}
+                                    sv = {"status": status, "framing": framing, "keep": keep, "extra": extra, "seg": seg, "n": 40, "late": (None, 9, 12, 0)[k % 4], "trap": bool(k % 2)}
                                     yield {"kind": "own", "maxsize": maxsize, "retries": retries, "requests": [{"m": m, "b": b}, {"m": "GET", "b": "read"}, {"m": ("GET", "POST")[k % 2], "b": "stream"}], "server": [sv]}
 
 
@@ -283,7 +297,7 @@ def _hyp():
     sv = st.fixed_dictionaries({
         "status": st.sampled_from([200, 200, 200, 204, 304]), "framing": st.sampled_from(["cl", "chunked", "close"]), "keep": st.sampled_from([True, True, False]),
         "extra": st.sampled_from(EXTRAS + [None, None]), "seg": st.sampled_from([None, None, 1, 2, 7, 13, 100]), "n": st.sampled_from([0, 1, 5, 9, 10, 40, 200, 3000]),
-        "cs": st.lists(st.integers(1, 40), max_size=3),
+        "cs": st.lists(st.integers(1, 40), max_size=3), "late": st.sampled_from([None, None, None, 0, 5, 9, 12, 100]), "trap": st.booleans(),
     })
     rq = st.fixed_dictionaries({"m": st.sampled_from(["GET", "GET", "HEAD", "POST"]), "b": st.sampled_from(BEHAVIOURS)})
     return st.fixed_dictionaries({
